@@ -149,6 +149,18 @@ def run(r):
                              lambda c: f"(match load marsh_cfg {C.blist(c['bytes'])} with Ok (v, _) => 0 :: obs_pv {ft_of(c['bytes'])} v | Err e => [1; err_code e] end)",
                              modules=MODS, chunk=100, describe=lambda case, impl, model: {"component": "xdis.marsh.loads vs model (shared reader, marsh_cfg)",
                                                                                             "stream": case["bytes"][:200], "impl": impl[:100], "model": model[:300]})
+        # ill-formed streams through xdis.marsh.loads against the reader model (marsh_cfg): truncations, unknown codes, and negative sizes,
+        # which its buffer reader refuses (a negative size would step backwards and re-read the same item for ever inside a container)
+        import struct
+        neg = list(struct.pack("<i", -5))
+        hostile = [{"bytes": b} for b in ([ord("s")] + neg + [97, 98], [ord("{"), ord("s")] + neg + [ord("N"), ord("0")], [ord("[")] + list(struct.pack("<i", 3)) + [ord("s")] + neg,
+                                          [ord("(")] + list(struct.pack("<i", 2)) + [ord("u")] + neg + [ord("N")], [ord("u")] + list(struct.pack("<i", -1)), [ord("t")] + neg,
+                                          [ord("s")] + list(struct.pack("<i", 10)) + [1, 2], [ord("(")] + list(struct.pack("<i", 2)) + [ord("N")], [7], [], [ord("{"), ord("N")],
+                                          [ord("l")] + list(struct.pack("<i", 2)) + [1, 0], [ord("i"), 1, 2])]
+        C.correspond(r, "mloads_illformed", HEADER, "marsh_loads", hostile,
+                     lambda c: f"(match load marsh_cfg {C.blist(c['bytes'])} with Ok (v, _) => 0 :: obs_pv [] v | Err e => [1; err_code e] end)",
+                     modules=MODS, chunk=100, describe=lambda case, impl, model: {"component": "xdis.marsh.loads on an ill-formed stream vs model (shared reader, marsh_cfg)",
+                                                                                    "stream": case["bytes"][:200], "impl": impl[:100], "model": model[:300]})
     except SystemExit:
         raise
     except Exception as e:
